@@ -13,7 +13,10 @@ from vt.core import case_hash
 PID = 'C16'
 RULE = ('sets of 2-6 of 13 chemicals with functional groups (+ N2 / CO2 without), model classes UNIFAC, Dortmund, NIST (groups assigned by name on private uncached chemicals), ideal; '
         'compositions: vertices, near-vertices (1-1e-9), traces (1e-12..1e-3), interior (all x>=1e-3) with random zero-sum directions for Gibbs-Duhem, T 250-450 K, '
-        'every permutation of the set for n<=4 (6 random ones otherwise). non-trivial = >=2 chemicals with groups and a non-ideal value (|gamma-1|>1e-6) observed; distinct = hash of the case')
+        'every permutation of the set for n<=4 (6 random ones otherwise). Added: faces of the simplex (exact zeros on group-bearing members), sets with 0/1 group-bearing member + inert ones (ideal fallback), '
+        'Gibbs-Duhem with relative steps (trace / near-vertex / face compositions) and with the inert members moving, caller array kinds (list, int array, non-contiguous view) for the model object and the '
+        'functional form, activity_coefficients() on the sub-composition, re-evaluation after an intervening call at another (x, T) and with args captured earlier (bit identity), ideal fugacity / Poynting '
+        'models (with a Psats array) in every case. non-trivial = >=2 chemicals with groups and a non-ideal value (|gamma-1|>1e-6) observed; distinct = hash of the case')
 MIN_NONTRIVIAL = {'quick': 300, 'thorough': 10000}
 ASSUMPTIONS = ['Gibbs-Duhem is evaluated by central differences with step 1e-3*min(x) along zero-sum directions; bound 1e-4 of the largest term + 1e-7 (nearly ideal mixtures have terms of 1e-7 and finite-difference noise of a few 1e-9)',
                'NIST groups exist only for the chemicals whose names resolve in the bundled NIST subgroup table']
@@ -28,7 +31,8 @@ _nist = {}
 
 
 def required(tier):
-    return ['vertex', 'gibbs-duhem', 'permutation', 'no-groups', 'x-unchanged', 'functional-form', 'ideal-models', 'model:UNIFAC', 'model:Dortmund', 'model:NIST']
+    return ['vertex', 'gibbs-duhem', 'permutation', 'no-groups', 'x-unchanged', 'functional-form', 'ideal-models', 'model:UNIFAC', 'model:Dortmund', 'model:NIST',
+            'kind:face', 'kind:few-groups', 'gd:relative-step', 'gd:inert-moving', 'caller:list', 'caller:view', 'caller:int', 'caller:f-view', 'repeatable', 'sub-model-method', 'ideal:every-case']
 
 
 def chem(i):
@@ -58,29 +62,59 @@ def model(cls, ids):
     return getattr(eq, CLASSES[cls])(cs), cs
 
 
+def gen_extras(rng, case, m):
+    """fields of the added clauses (drawn after the original ones)."""
+    case['u'] = [round(rng.uniform(-1, 1), 6) for _ in range(m)]                     # relative-step direction for Gibbs-Duhem
+    x2 = [rng.uniform(0.02, 1) for _ in range(m)]; s2 = sum(x2)
+    case['x2'] = [v / s2 for v in x2]; case['T2'] = round(rng.uniform(250, 450), 2)   # intervening evaluation at another state
+    case['xk'] = rng.choice(['list', 'view', 'f-view', 'int' if all(v in (0.0, 1.0) for v in case['x']) else 'list'])
+    case['Psats'] = [round(10 ** rng.uniform(2, 6), 3) for _ in range(m)]; case['P'] = rng.choice([5e4, 101325., 1e6])
+    return case
+
+
 def gen_case(rng):
     cls = rng.choice(['UNIFAC', 'Dortmund', 'Dortmund', 'NIST', 'Ideal'])
     pool = [i for i in WITH if (cls != 'NIST' or i in NIST_GROUPS)]
+    if rng.random() < 0.04:
+        # at most one member has group data (plus >=1 without): the model class falls back to the ideal model
+        n = rng.randrange(0, 2)
+        ids = rng.sample(pool, n)
+        extra = list(WITHOUT) if rng.random() < 0.5 else [rng.choice(WITHOUT)]
+        if rng.random() < 0.5: extra.reverse()
+        m = n + len(extra)
+        x = [rng.uniform(0.02, 1) for _ in range(m)]
+        if rng.random() < 0.2: x[rng.randrange(m)] = 0.0
+        if sum(x) == 0: x[0] = 1.0
+        s = sum(x); x = [v / s for v in x]
+        return gen_extras(rng, {'cls': cls, 'ids': ids, 'extra': extra, 'kind': 'few-groups', 'x': x, 'T': round(rng.uniform(250, 450), 2), 'd': [0.0] * m, 'pseed': rng.randrange(10 ** 6)}, m)
     n = rng.randrange(2, min(6, len(pool)) + 1)
     ids = rng.sample(pool, n)
     extra = [i for i in WITHOUT if rng.random() < 0.25]
-    kind = rng.choice(['vertex', 'near-vertex', 'trace', 'interior', 'interior', 'interior'])
+    kind = rng.choice(['vertex', 'near-vertex', 'trace', 'interior', 'interior', 'interior', 'face'])
     m = n + len(extra)
     if extra and rng.random() < 0.15:
         # only members without group data are present
         x = [0.0] * n + [1.0 / len(extra)] * len(extra)
-        return {'cls': cls, 'ids': ids, 'extra': extra, 'kind': 'inert-only', 'x': x, 'T': round(rng.uniform(250, 450), 2), 'd': [0.0] * m, 'pseed': rng.randrange(10 ** 6)}
+        return gen_extras(rng, {'cls': cls, 'ids': ids, 'extra': extra, 'kind': 'inert-only', 'x': x, 'T': round(rng.uniform(250, 450), 2), 'd': [0.0] * m, 'pseed': rng.randrange(10 ** 6)}, m)
     if kind == 'vertex':
         x = [0.0] * m; x[rng.randrange(n)] = 1.0
     elif kind == 'near-vertex':
         k = rng.randrange(n); x = [1e-9 / (m - 1)] * m; x[k] = 1 - 1e-9
     elif kind == 'trace':
         x = [10 ** rng.uniform(-12, -3) if rng.random() < 0.5 else rng.random() for _ in range(m)]
+    elif kind == 'face':
+        # exact zeros on some group-bearing members, at least one (usually >= 2) of them present
+        x = [rng.uniform(0.02, 1) for _ in range(m)]
+        if n == 2 and not extra:
+            x[rng.randrange(n)] = 0.0                      # an edge of a binary is a vertex reached through the general path
+        else:
+            nz = rng.randrange(1, n) if n > 2 else 1
+            for k in rng.sample(range(n), nz): x[k] = 0.0
     else:
         x = [rng.uniform(0.02, 1) for _ in range(m)]
     s = sum(x); x = [v / s for v in x]
     d = [rng.uniform(-1, 1) for _ in range(m)]; mean = sum(d) / m; d = [v - mean for v in d]
-    return {'cls': cls, 'ids': ids, 'extra': extra, 'kind': kind, 'x': x, 'T': round(rng.uniform(250, 450), 2), 'd': d, 'pseed': rng.randrange(10 ** 6)}
+    return gen_extras(rng, {'cls': cls, 'ids': ids, 'extra': extra, 'kind': kind, 'x': x, 'T': round(rng.uniform(250, 450), 2), 'd': d, 'pseed': rng.randrange(10 ** 6)}, m)
 
 
 def run_case(case, rec):
@@ -110,6 +144,7 @@ def run_case(case, rec):
         rec.check(np.array_equal(gf, g) or (gf.ndim == 0 and np.all(g == gf)), 'functional-form', tag, f'Gamma.f(x,T,*args) = {gf.tolist()} differs from Gamma(x,T) = {g.tolist()}')
     except Exception as e:
         rec.exception('functional-form', e, what=f'{cls}.f raised {type(e).__name__}: {e}')
+    extra_clauses(case, rec, G, cs, cls, ids, n, T, g)
     if cls == 'Ideal':
         rec.check(np.all(g == 1.0), 'ideal-models', 'gamma', f'ideal activity coefficients {g.tolist()}')
         try:
@@ -130,8 +165,12 @@ def run_case(case, rec):
             rec.check(np.allclose(g[:n], g2, rtol=1e-12, atol=0), 'no-groups', f'perturbs/{tag}', f'gamma with inert members {g[:n].tolist()} != gamma on the renormalised sub-composition {g2.tolist()}')
         except Exception as e:
             rec.exception('no-groups', e, what=f'sub-model raised {type(e).__name__}: {e}')
+    if case['kind'] == 'few-groups':
+        # at most one member with group data: nothing else of the property applies (no pair of interacting members)
+        rec.hit('kind:few-groups'); rec.mark_nontrivial(case_hash(case)); return
+    if case['kind'] == 'face': rec.hit('kind:face')
     # (1) normalisation at the vertices
-    if case['kind'] in ('vertex', 'near-vertex'):
+    if case['kind'] in ('vertex', 'near-vertex') or (x.max() == 1.0 and int(np.argmax(x)) < n):
         k = int(np.argmax(x))
         rec.check(abs(g[k] - 1.0) <= 1e-9, 'vertex', tag, f'gamma of {ids[k]} at x={x[k]!r} is {g[k]!r}, not 1', residual=abs(g[k] - 1.0))
     # (2) Gibbs-Duhem on interior points
@@ -147,6 +186,39 @@ def run_case(case, rec):
             rec.check(res <= 1e-4 * scale + 1e-7, 'gibbs-duhem', tag, f'sum x_i dln(gamma_i)/ds = {terms.sum()!r} with largest term {scale!r} (x={x.tolist()}, T={T})', residual=res / max(scale, 1e-300))
         except Exception as e:
             rec.exception('gibbs-duhem', e, what=f'{cls} raised {type(e).__name__} near an interior point: {e}')
+    # (2b) Gibbs-Duhem with relative steps x_i -> x_i (1 +- eps (u_i - ubar)): resolves trace, near-vertex and face compositions
+    #      (members at exactly zero stay at zero: the derivative is taken inside the face)
+    present = [k for k in range(n) if x[k] > 0]
+    if len(present) >= 2 and case.get('u') is not None and case['kind'] != 'vertex':
+        u = np.array(case['u'], float); u[n:] = 0.0
+        xs = x[:n].sum()
+        ubar = float((x[:n] * u[:n]).sum() / xs)
+        d = np.zeros(len(x)); d[:n] = x[:n] * (u[:n] - ubar)        # zero-sum, zero on absent and on inert members
+        eps = 1e-3
+        try:
+            gp = np.asarray(G((x + eps * d).copy(), T), float); gm = np.asarray(G((x - eps * d).copy(), T), float)
+            dln = (np.log(gp[present]) - np.log(gm[present])) / (2 * eps)
+            terms = x[present] * dln
+            res = abs(terms.sum()); scale = np.abs(terms).max()
+            rec.check(res <= 1e-4 * scale + 1e-7, 'gibbs-duhem', f'{tag}/relative-step/{case["kind"]}',
+                      f'sum x_i dln(gamma_i)/ds = {terms.sum()!r} with largest term {scale!r} along a relative step (x={x.tolist()}, T={T})', residual=res / max(scale, 1e-300))
+            rec.hit('gd:relative-step')
+        except Exception as e:
+            rec.exception('gibbs-duhem', e, what=f'{cls} raised {type(e).__name__} near a {case["kind"]} point: {e}')
+    # (2c) Gibbs-Duhem with the members without group data moving too (their gamma is one: d ln(gamma) = 0)
+    if case['kind'] == 'interior' and n >= 2 and case['extra']:
+        d = np.array(case['d'], float); d -= d.mean()
+        eps = 1e-3 * x.min() / max(np.abs(d).max(), 1e-12)
+        try:
+            gp = np.asarray(G((x + eps * d).copy(), T), float); gm = np.asarray(G((x - eps * d).copy(), T), float)
+            dln = (np.log(gp) - np.log(gm)) / (2 * eps)
+            terms = x * dln
+            res = abs(terms.sum()); scale = np.abs(terms).max()
+            rec.check(res <= 1e-4 * scale + 1e-7, 'gibbs-duhem', f'{tag}/inert-moving', f'sum x_i dln(gamma_i)/ds = {terms.sum()!r} with largest term {scale!r}, inert members moving (x={x.tolist()}, d={d.tolist()}, T={T})',
+                      residual=res / max(scale, 1e-300))
+            rec.hit('gd:inert-moving')
+        except Exception as e:
+            rec.exception('gibbs-duhem', e, what=f'{cls} raised {type(e).__name__} near an interior point (inert members moving): {e}')
     # (3) permutation equivariance (fresh model object per permutation; exercises the per-tuple cache)
     m = len(ids)
     if m <= 4: perms = list(itertools.permutations(range(m)))[1:]
@@ -165,6 +237,83 @@ def run_case(case, rec):
         except Exception as e:
             rec.exception('permutation', e, what=f'{cls} on a permuted list raised {type(e).__name__}: {e}'); break
     if np.abs(g[:n] - 1).max() > 1e-6: rec.mark_nontrivial(case_hash(case))
+
+
+def extra_clauses(case, rec, G, cs, cls, ids, n, T, g):
+    """added clauses that apply to every model class: caller array kinds, re-evaluation, sub-model method, ideal fugacity / Poynting."""
+    tag = cls
+    x = np.array(case['x'], float)
+    m = len(x)
+    same = lambda a: (np.array_equal(np.asarray(a, float), g) or (np.ndim(a) == 0 and np.all(g == a)))
+    # (6b) other kinds of caller arrays
+    xk = case.get('xk')
+    try:
+        if xk == 'list':
+            xc = [float(v) for v in x]; keep = list(xc)
+            gl = G(xc, T)
+            rec.check(xc == keep and all(type(v) is float for v in xc), 'x-unchanged', f'{tag}/list', f'{cls} model modified the composition list passed by the caller: {keep} -> {xc}')
+            rec.check(same(gl), 'functional-form', f'{tag}/list-argument', f'Gamma(list(x), T) = {np.asarray(gl).tolist()} differs from Gamma(array(x), T) = {g.tolist()}')
+            rec.hit('caller:list')
+        elif xk == 'int':
+            xc = np.array(case['x']).astype(int); keep = xc.copy()
+            gi = G(xc, T)
+            rec.check(xc.dtype == keep.dtype and xc.tobytes() == keep.tobytes(), 'x-unchanged', f'{tag}/int-array', f'{cls} model modified the integer composition array passed by the caller')
+            rec.check(same(gi), 'functional-form', f'{tag}/int-argument', f'Gamma(int array, T) = {np.asarray(gi).tolist()} differs from Gamma(float array, T) = {g.tolist()}')
+            rec.hit('caller:int')
+        elif xk in ('view', 'f-view'):
+            base = np.full(2 * m, -7.0); base[::2] = x; keep = base.copy()
+            xc = base[::2]
+            if xk == 'view':
+                gv = G(xc, T)
+            else:
+                gv = G.f(xc, T, *G.args)                      # the functional form on the caller's own (non-contiguous) array
+            rec.check(base.tobytes() == keep.tobytes(), 'x-unchanged', f'{tag}/{xk}', f'{cls} ({"model object" if xk == "view" else "functional form"}) modified the non-contiguous composition view passed by the caller: {keep.tolist()} -> {base.tolist()}')
+            rec.check(same(gv), 'functional-form', f'{tag}/{xk}-argument', f'value on a non-contiguous view {np.asarray(gv).tolist()} differs from Gamma(x, T) = {g.tolist()}')
+            rec.hit('caller:' + xk)
+        # the functional form on the caller's own contiguous array (not a copy)
+        xc = x.copy(); keep = xc.copy()
+        gf = G.f(xc, T, *G.args)
+        rec.check(xc.tobytes() == keep.tobytes(), 'x-unchanged', f'{tag}/functional-form', f'{cls}.f modified the composition array passed by the caller: {keep.tolist()} -> {xc.tolist()}')
+    except Exception as e:
+        rec.exception('x-unchanged', e, what=f'{cls} on a caller array of kind {xk} raised {type(e).__name__}: {str(e)[:150]}')
+    # (6c) side-effect free: the same (x, T) after an evaluation at another state, and through args captured before it
+    if case.get('x2') is not None:
+        try:
+            args = G.args
+            G(np.array(case['x2'], float), case['T2'])
+            g3 = G(x.copy(), T)
+            g4 = G.f(x.copy(), T, *args)
+            rec.check(same(g3), 'repeatable', f'{tag}/after-other-state', f'Gamma(x, T) = {g.tolist()} but {np.asarray(g3).tolist()} after an intervening evaluation at x2={case["x2"]}, T2={case["T2"]}')
+            rec.check(same(g4), 'repeatable', f'{tag}/captured-args', f'Gamma.f(x, T, *args) with args captured before an intervening evaluation gives {np.asarray(g4).tolist()}, Gamma(x, T) = {g.tolist()}')
+        except Exception as e:
+            rec.exception('repeatable', e, what=f'{cls} re-evaluation raised {type(e).__name__}: {str(e)[:150]}')
+    # (7b) the public sub-model method (chemicals with groups only, normalised sub-composition)
+    if hasattr(G, 'activity_coefficients') and hasattr(G, '_index'):
+        idx = [int(i) for i in G._index]
+        xs = x[idx]
+        if xs.sum() > 0:
+            xs = xs / xs.sum(); keep = xs.copy()
+            try:
+                ga = np.asarray(G.activity_coefficients(xs, T), float)
+                rec.check(xs.tobytes() == keep.tobytes(), 'x-unchanged', f'{tag}/activity_coefficients', f'{cls}.activity_coefficients modified the composition array passed by the caller')
+                ref = g[idx]
+                okv = all((a == b) or (a != a) or abs(a - b) <= 1e-12 * abs(b) for a, b in zip(ga, ref))      # nan (member absent from every group sum) is mapped to one by the functional form
+                rec.check(okv, 'functional-form', f'{tag}/activity_coefficients', f'{cls}.activity_coefficients(x_sub, T) = {ga.tolist()} differs from Gamma(x, T)[with groups] = {ref.tolist()}')
+                rec.hit('sub-model-method')
+            except Exception as e:
+                rec.exception('functional-form', e, what=f'{cls}.activity_coefficients raised {type(e).__name__}: {str(e)[:150]}')
+    # (5b) ideal models return one for every chemical list / argument form and leave their arguments alone
+    try:
+        P = case.get('P', 101325.)
+        y = x.copy(); Ps = np.array(case.get('Psats') or [1e4] * m, float); Ps0 = Ps.copy()
+        phi = eq.IdealFugacityCoefficients(cs); pcf = eq.MockPoyintingCorrectionFactors(cs); gid = eq.IdealActivityCoefficients(cs)
+        vals = [phi(y, T, P), phi.f(y, T, P, *phi.args), pcf(T, P, Ps), pcf(T, P), gid.f(y, T, *gid.args)]
+        gi = gid(y, T)
+        rec.check(all(np.all(np.asarray(v) == 1.0) for v in vals) and np.shape(gi) == (m,) and np.all(gi == 1.0), 'ideal-models', 'every-case', f'ideal fugacity / Poynting / activity models returned {vals} / {np.asarray(gi).tolist()}')
+        rec.check(y.tobytes() == x.tobytes() and Ps.tobytes() == Ps0.tobytes(), 'x-unchanged', 'ideal-models', 'an ideal model modified the composition or the Psats array passed by the caller')
+        rec.hit('ideal:every-case')
+    except Exception as e:
+        rec.exception('ideal-models', e, what=f'ideal models raised {type(e).__name__}: {e}')
 
 
 def replay(case, rec):
